@@ -258,6 +258,40 @@ func (p *Prog) concretize(o *Oblig, rf *replayFile, repo, verif, replayPath, wor
 		params = append(params, pinfo{prm.Name(), prm.Type()})
 		p.modelTermsFor(e, mq, prm.Name(), v, prm.Type(), 0)
 	}
+	// observers: named spec expressions over the entry state, listed in <test>.observe
+	var observed []string
+	if ob, err := os.ReadFile(strings.TrimSuffix(testSrc, "_test.go") + ".observe"); err == nil {
+		pbind := map[string]TV{}
+		for _, prm := range e.Fn.Params {
+			pbind[prm.Name()] = TV{Val: Val{"p_" + mangle(prm.Name()), p.W.SortOf(prm.Type())}, Ty: prm.Type()}
+		}
+		var spec *SpecFile
+		if e.FC != nil {
+			spec = e.FC.Spec
+		}
+		for _, line := range strings.Split(string(ob), "\n") {
+			line = strings.TrimSpace(line)
+			if line == "" || strings.HasPrefix(line, "#") {
+				continue
+			}
+			i := strings.Index(line, ":")
+			if i < 0 {
+				continue
+			}
+			sx, err := parseSpecExpr(strings.TrimSpace(line[i+1:]))
+			if err != nil {
+				continue
+			}
+			ec := &EvalCtx{e: e, st: e.entry, old: e.entry, bind: pbind, spec: spec}
+			v, err := ec.eval(sx)
+			if err != nil || v.Lit != nil {
+				continue
+			}
+			k := "observe." + strings.TrimSpace(line[:i])
+			mq.add(k, v.T)
+			observed = append(observed, k)
+		}
+	}
 	// the loads above may have materialised entry heaps that the obligation's own query does not declare
 	q := o.queryAllDecls(factsFrom)
 	out := GetModel(q, mq.terms, filepath.Join(workdir, fmt.Sprintf("model-%x", hashStr(o.Name))), 30, o.Result.Backend)
@@ -283,6 +317,11 @@ func (p *Prog) concretize(o *Oblig, rf *replayFile, repo, verif, replayPath, wor
 	inputs := map[string]interface{}{}
 	for _, pi := range params {
 		inputs[pi.name] = p.inputFromModel(vals, pi.name, pi.t, 0)
+	}
+	for _, k := range observed {
+		if v, ok := vals[k]; ok {
+			inputs[strings.TrimPrefix(k, "observe.")] = v.String()
+		}
 	}
 	rf.Inputs = inputs
 	inputs["obligation"] = o.Name
